@@ -279,6 +279,7 @@ func check(sc scenario, res *core.Result) (string, string) {
 		}
 		return o, nil
 	}
+	var sns []snippet.Snippet
 	for i, ref := range sc.Refs {
 		buf.Reset()
 		var sn snippet.Snippet
@@ -309,6 +310,7 @@ func check(sc scenario, res *core.Result) (string, string) {
 		if pk, pv, _ := core.Guard(func() { sw.Render(sn) }); pk {
 			return "render-panic", fmt.Sprintf("reference %d (%s %s) panicked: %v", i, ref.Kind, ref.Expr, pv)
 		}
+		sns = append(sns, sn)
 		text := buf.String()
 		var paths []string
 		ref.Expr.Paths(&paths)
@@ -357,6 +359,49 @@ func check(sc scenario, res *core.Result) (string, string) {
 	for p := range referenced {
 		if _, ok := imports[p]; !ok {
 			return "imports-exact", fmt.Sprintf("package %q is referenced but missing from Imports() %v", p, imports)
+		}
+	}
+	// the same snippet VALUES rendered once more, in reverse order, into a second writer with its own import table
+	// (snippets kept in variables are rendered for many files): the second writer's table must be complete and every
+	// qualifier must be the name bound there - nothing remembered from the first rendering may be reused
+	{
+		var buf2 bytes.Buffer
+		tracker2 := namer.NewDefaultImportTracker()
+		sw2 := gengo.NewSnippetWriter(&buf2, namer.NameSystems{"raw": namer.NewRawNamer(target, tracker2)})
+		for i := len(sns) - 1; i >= 0; i-- {
+			buf2.Reset()
+			ref := sc.Refs[i]
+			if pk, pv, _ := core.Guard(func() { sw2.Render(sns[i]) }); pk {
+				return "render-panic", fmt.Sprintf("reference %d (%s %s) panicked when rendered into a second writer: %v", i, ref.Kind, ref.Expr, pv)
+			}
+			quals, err := qualifiers(buf2.String())
+			if err != nil {
+				return "second-writer", fmt.Sprintf("reference %d (%s %s) rendered %q into a second writer, which does not parse: %v", i, ref.Kind, ref.Expr, buf2.String(), err)
+			}
+			var paths, want []string
+			ref.Expr.Paths(&paths)
+			for _, p := range paths {
+				if p != target {
+					want = append(want, tracker2.Imports()[p])
+				}
+			}
+			if strings.Join(quals, ",") != strings.Join(want, ",") {
+				return "second-writer", fmt.Sprintf("reference %d (%s %s), a snippet value rendered before into another writer, rendered %q with qualifiers %v, want %v (imports of the second writer %v)", i, ref.Kind, ref.Expr, buf2.String(), quals, want, tracker2.Imports())
+			}
+		}
+		imports2 := tracker2.Imports()
+		for p := range referenced {
+			if _, ok := imports2[p]; !ok {
+				return "second-writer", fmt.Sprintf("package %q is referenced by a snippet value rendered into a second writer but missing from that writer's Imports() %v", p, imports2)
+			}
+		}
+		for p := range imports2 {
+			if !referenced[p] {
+				return "second-writer", fmt.Sprintf("package %q is in the second writer's Imports() but was never referenced", p)
+			}
+		}
+		if res != nil {
+			res.Count("snippet_values_rendered_into_a_second_writer", int64(len(sns)))
 		}
 	}
 	names := map[string]string{}
